@@ -1,4 +1,5 @@
 import ClusterVerif.Lemmas.C16
+import ClusterVerif.Lemmas.C16Req
 import ClusterVerif.Model.C16Source
 import ClusterVerif.Gen.C16
 
@@ -907,6 +908,99 @@ theorem ungoverned_aux_waits :
       ⟨.repoGC, ⟨200, .none, .empty, .stallHeaders⟩, 0⟩ = .errctx := by decide
 
 /-! ### The anchored functions still read as the model was transcribed (regenerated from /repo on every run) -/
+
+/-! ### round 8b: how every daemon request is built (regenerated `Gen.reqSites`, `Gen.pinArgsTable`, …) and the tables of api/types.go -/
+section Requests
+open ReqM
+
+/-- `Unpin` sends `pin/rm?arg=<the cid>` and nothing that makes go-ipfs unpin non-recursively -/
+theorem gen_req_rm (c : Nat) (d : Int) : reqOf Gen.reqSites genT "Unpin" ⟨c, 0, d⟩ = some (.rm c) := req_rm c d
+
+/-- `pinUpdate` sends `pin/update?arg=<source>&arg=<cid>` in this order WITH an explicit `unpin=false`
+(read with go-ipfs' default `unpin=true` for a request that leaves the option out) -/
+theorem gen_req_upd (f c : Nat) (d : Int) : reqOf Gen.reqSites genT "pinUpdate" ⟨c, f, d⟩ = some (.upd f c false) := req_upd f c d
+
+/-- `PinLsCid` asks for the cid with `type=direct` exactly for depth 0 and `type=recursive` for every other depth
+(through the regenerated arms of `ToPinMode` and `PinMode.String`) -/
+theorem gen_req_ls (c : Nat) (d : Int) : reqOf Gen.reqSites genT "PinLsCid" ⟨c, 0, d⟩ = some (.ls c (typeRec d)) := req_ls c d
+
+/-- `pinProgress` sends `pin/add?arg=<cid>&<pinArgs(depth)>&progress=true`; through the regenerated arms of `pinArgs`:
+`recursive=false` exactly for depth 0, `max-depth` exactly for a positive depth -/
+theorem gen_req_add (c : Nat) (d : Int) : reqOf Gen.reqSites genT "pinProgress" ⟨c, 0, d⟩ = some (addReq c d) := req_add c d
+
+theorem gen_pinType (d : Int) :
+    pinTypeT Gen.toPinModeTable Gen.pinModeStringTable d = some (if d = 0 then "direct" else "recursive") := pinType_gen d
+
+theorem gen_pinArgs (d : Int) :
+    pinArgsPairs Gen.pinArgsTable d =
+      some (if d < 0 then [("recursive", WVal.txt "true")] else if d = 0 then [("recursive", WVal.txt "false")]
+            else [("recursive", WVal.txt "true"), ("max-depth", WVal.num d)]) := pinArgs_gen d
+
+/-- `IsPinned(maxDepth)` for EVERY status × depth: true exactly for status direct at depth 0 and status recursive at any other depth -/
+theorem gen_isPinned (st : St) (d : Int) :
+    isPinnedT Gen.isPinnedTable st d = some (decide ((if d = 0 then St.direct else St.recursive) = st)) := isPinned_gen st d
+
+/-- in the model's terms: the short-cut test holds exactly when the daemon's state is the one `asked` names -/
+theorem gen_isPinned_asked (s : PState) (d : Int) :
+    isPinnedT Gen.isPinnedTable (St.ofP s) d = some (decide (s = asked d)) := by
+  rw [gen_isPinned]
+  by_cases h : d = 0 <;> cases s <;> simp [h, asked, St.ofP]
+
+/-- the `Type` texts of go-ipfs are read as the state they name, `indirect through <anything>` as indirect -/
+theorem gen_fromString_types (s : PState) (through : String) (h : s ≠ .u) :
+    fromStringT Gen.fromStringTable (typeText s through) = some (St.ofP s) := by
+  cases s with
+  | u => exact absurd rfl h
+  | d => show fromStringT Gen.fromStringTable "direct" = some St.direct; decide
+  | r => show fromStringT Gen.fromStringTable "recursive" = some St.recursive; decide
+  | i => exact fromString_indirect through
+
+/-- anything else is `Bug`, which no `IsPinned` accepts -/
+theorem gen_fromString_other_unpinned (d : Int) :
+    fromStringT Gen.fromStringTable "" = some .bug ∧ fromStringT Gen.fromStringTable "Direct" = some .bug ∧
+    isPinnedT Gen.isPinnedTable .bug d = some false := by
+  refine ⟨rfl, rfl, ?_⟩
+  rw [gen_isPinned]; by_cases h : d = 0 <;> simp [h]
+
+/-- every request of every conversation of the transcribed model is the one today's source builds -/
+theorem rebuildTrace_run (i : Input) : rebuildTrace Gen.reqSites genT i (run i).trace = (run i).trace :=
+  ReqM.rebuildTrace_run i
+
+/-- with today's tables the doubly interpreted model (time-outs and request construction) is the transcribed one -/
+theorem runReq_eq_run (i : Input) : runReq Gen.ctxSites Gen.reqSites genT i = run i := by
+  unfold runReq rebuildOut
+  rw [runCtx_eq_run _ gen_steps_governed.1, ReqM.rebuildTrace_run, rebuildTable_gen]
+
+theorem allowedReq_eq (i : Input) (o : Output) : allowedReq Gen.ctxSites Gen.reqSites genT i o = allowed i o := by
+  unfold allowedReq allowed
+  rw [runReq_eq_run]
+
+/-- what the driver compares the implementation with satisfies all clauses -/
+theorem allowedReq_holds (i : Input) (o : Output) (hw : wf i = true)
+    (ha : allowedReq Gen.ctxSites Gen.reqSites genT i o = true) : holds i o = true := by
+  rw [allowedReq_eq] at ha
+  exact allowed_holds i o hw ha
+
+/-- a pin of cid 0 (recursive) as an update of cid 1, which the daemon holds recursively -/
+def exUpdateReq : Input :=
+  { op := .pin, n := 2, cid := 0, depth := -1, modeRec := true, src := some 1, norig := 0, unpinDisable := false,
+    table := fun x => if x = 1 then .r else .u, script := [] }
+
+example : wf exUpdateReq = true := by decide
+
+/-- the seeded change C16g as a table (pin/update built without its `unpin` parameter): go-ipfs reads `unpin=true` … -/
+theorem omitted_unpin_reads_true (f c : Nat) (d : Int) :
+    reqOf sitesNoUnpin genT "pinUpdate" ⟨c, f, d⟩ = some (.upd f c true) := noUnpin_reads_true f c d
+
+/-- … and the interpreted model then predicts the loss of the source's pin (clause `source_kept` fails on its output),
+while with today's table the source stays pinned -/
+theorem omitted_unpin_loses_source :
+    (runReq Gen.ctxSites sitesNoUnpin genT exUpdateReq).final 1 = .u ∧
+    (runReq Gen.ctxSites sitesNoUnpin genT exUpdateReq).trace.getLast? = some (.upd 1 0 true) ∧
+    (runReq Gen.ctxSites Gen.reqSites genT exUpdateReq).final 1 = .r := by decide
+
+end Requests
+
 
 theorem gen_source_pinArgs : Gen.pinArgs = Expected.pinArgs := rfl
 theorem gen_source_pin : Gen.pin = Expected.pin := rfl
